@@ -31,7 +31,51 @@ class TranslationError(Exception):
     pass
 
 
-KIND_COMMAND, KIND_EVENT, KIND_LE_EVENT, KIND_RETURN = 0, 1, 2, 3
+KIND_COMMAND, KIND_EVENT, KIND_LE_EVENT, KIND_RETURN, KIND_VENDOR = 0, 1, 2, 3, 4
+
+# a module "registers HCI classes" when it uses one of the registration decorators or adds a
+# vendor event factory; registration is an import side effect on process-wide dicts, so the
+# check imports every such module before it reads the registries
+import re as _re
+REGISTRATION = _re.compile(
+    r'^\s*@[\w.]*HCI_\w+\.(?:event|command|registered)\b|^\s*@[\w.]*sync_command\(|add_vendor_factory\(',
+    _re.M)
+MODULES: list = []      # names of the modules imported by the last load()
+
+
+def registering_modules():
+    """module names under the bumble package of $BUMBLE_REPO that register HCI classes"""
+    import os
+    import bumble
+    root = os.path.dirname(os.path.abspath(bumble.__file__))
+    out = []
+    for d, dirs, files in os.walk(root):
+        dirs.sort()
+        for f in sorted(files):
+            if not f.endswith('.py'):
+                continue
+            path = os.path.join(d, f)
+            with open(path, encoding='utf-8') as fh:
+                text = fh.read()
+            if REGISTRATION.search(text):
+                rel = os.path.relpath(path, os.path.dirname(root))[:-3]
+                out.append(rel.replace(os.sep, '.').removesuffix('.__init__'))
+    return sorted(out)
+
+
+def import_registering_modules():
+    import importlib
+    names = registering_modules()
+    if 'bumble.hci' not in names:
+        raise TranslationError('bumble.hci no longer matches the registration pattern (decorators renamed?)')
+    for n in names:
+        try:
+            importlib.import_module(n)
+        except Exception as e:
+            raise TranslationError(f'module {n} registers HCI classes but cannot be imported: {type(e).__name__}: {e}')
+    MODULES[:] = names
+    return names
+
 
 # classes that do not use the generic field codec; they are hand-written in hci.py (item
 # count = number of bits set in a PHY mask).  They are exercised by the oracle only.
@@ -48,7 +92,10 @@ class ClassInfo:
     name: str
     pycls: type
     fields: list            # list of field (see module doc); [] for custom classes
+    event: int = 0          # the class's own event_code attribute (0 for commands / return parameters)
     custom: bool = False
+    custom_return: bool = False      # commands: parse_return_parameters is hand-written
+    selector: list | None = None     # vendor sub-event classes: allowed values of the first field
     ret_name: str | None = None      # commands: name of return_parameters_class
     status_first: bool = False       # return parameters: subclass of HCI_StatusReturnParameters
 
@@ -292,7 +339,7 @@ def _check_overrides(hci, cls, kind):
     elif kind == KIND_EVENT:
         base = {'from_parameters': hci.HCI_Event, 'from_bytes': hci.HCI_Event,
                 '__bytes__': hci.HCI_Event, 'parameters': hci.HCI_Event}
-    else:
+    else:       # LE sub-events and vendor sub-events
         base = {'from_parameters': hci.HCI_Extended_Event, 'from_bytes': hci.HCI_Event,
                 '__bytes__': hci.HCI_Event, 'parameters': hci.HCI_Extended_Event}
     for n, want in base.items():
@@ -312,6 +359,42 @@ def _check_overrides(hci, cls, kind):
         raise TranslationError(f'{cls.__name__}: defines __post_init__')
 
 
+def vendor_rule(hci, factory):
+    """A registered vendor event factory -> (sub-event code, [report ids], class), or fail.
+    Catalogue: the Android factory (bound classmethod of a HCI_Extended_Event subclass that
+    returns <Class>.from_parameters(parameters) when parameters[0] is the sub-event code and
+    parameters[1] one of a literal tuple of ids, and None otherwise)."""
+    owner = getattr(factory, '__self__', None)
+    fn = _func(factory)
+    code = getattr(fn, '__code__', None)
+    name = getattr(factory, '__qualname__', repr(factory))
+    if not (isinstance(owner, type) and issubclass(owner, hci.HCI_Extended_Event) and code is not None):
+        raise TranslationError(f'vendor factory {name}: not a classmethod of an HCI_Extended_Event subclass')
+    names = tuple(n for n in code.co_names if n != 'len')
+    if len(names) != 3 or names[2] != 'from_parameters':
+        raise TranslationError(f'vendor factory {name}: unrecognised shape (names {code.co_names})')
+    g = fn.__globals__
+    sub, cls = g.get(names[0]), g.get(names[1])
+    ids = [c for c in code.co_consts if isinstance(c, tuple) and c and all(type(x) is int for x in c)]
+    if type(sub) is not int or not isinstance(cls, type) or len(ids) != 1:
+        raise TranslationError(f'vendor factory {name}: cannot read sub-event code / class / id tuple')
+    ids = sorted(ids[0])
+    if not (issubclass(cls, hci.HCI_Extended_Event) and getattr(cls, 'subevent_code', None) == sub):
+        raise TranslationError(f'vendor factory {name}: {cls.__name__} is not the class of sub-event {sub:#x}')
+    # behavioural probe
+    body = bytes(250)
+    other = next(x for x in range(256) if x not in ids)
+    try:
+        ok = (isinstance(factory(bytes([sub, ids[0]]) + body), cls)
+              and factory(bytes([sub, other]) + body) is None
+              and factory(bytes([sub ^ 1, ids[0]]) + body) is None)
+    except Exception as e:
+        raise TranslationError(f'vendor factory {name}: probe raised {type(e).__name__}')
+    if not ok:
+        raise TranslationError(f'vendor factory {name}: does not behave as (sub-event, id) dispatch')
+    return sub, ids, cls
+
+
 FAILED: list = []      # (kind, code, class, message) of classes skipped by load(strict=False)
 
 
@@ -320,6 +403,7 @@ def load(strict=True):
     that cannot be translated is skipped and recorded in FAILED (used only to keep the
     harness running for the other classes after the translator has already failed the check)."""
     from bumble import hci
+    import_registering_modules()
     infos: list[ClassInfo] = []
     rps: dict[type, ClassInfo] = {}
     FAILED.clear()
@@ -366,20 +450,72 @@ def load(strict=True):
                     _check_overrides(hci, cls, kind)
                     info = ClassInfo(kind, code, name, cls, fields_of(hci, cls.fields, name))
                     check_addr_after_type(info.fields, name)
+                if kind != KIND_COMMAND:
+                    info.event = getattr(cls, 'event_code', None)
+                    if type(info.event) is not int:
+                        raise TranslationError(f'{name}: no integer event_code')
                 if kind == KIND_COMMAND and issubclass(cls, hci.HCI_SyncCommand):
-                    if _owner(cls, 'parse_return_parameters') is not hci.HCI_SyncCommand:
-                        raise TranslationError(f'{name}: overrides parse_return_parameters')
                     info.ret_name = add_rp(cls.return_parameters_class).name
+                    if _owner(cls, 'parse_return_parameters') is not hci.HCI_SyncCommand:
+                        info.custom_return = True       # hand-written: oracle only
             except TranslationError as e:
                 if strict:
                     raise
                 FAILED.append((kind, code, cls, str(e)))
                 continue
             infos.append(info)
+    # vendor event factories, in call order, and the classes they dispatch to
+    rules = []
+    base = hci.HCI_Extended_Event.subevent_classes
+    for factory in hci.HCI_Event.vendor_factories:
+        try:
+            sub, ids, cls = vendor_rule(hci, factory)
+            _check_overrides(hci, cls, KIND_VENDOR)
+            info = ClassInfo(KIND_VENDOR, sub, cls.__name__, cls, fields_of(hci, cls.fields, cls.__name__))
+            check_addr_after_type(info.fields, cls.__name__)
+            info.event = getattr(cls, 'event_code', None)
+            if type(info.event) is not int:
+                raise TranslationError(f'{cls.__name__}: no integer event_code')
+            f0 = info.fields[0] if info.fields else None
+            if not (f0 and f0[0] == 'One' and f0[2] == ('Atom', ('UInt', 1))):
+                raise TranslationError(f'{cls.__name__}: first field is not the one-byte id the factory selects on')
+            info.selector = ids
+        except TranslationError as e:
+            if strict:
+                raise
+            FAILED.append((KIND_VENDOR, -1, None, str(e)))
+            continue
+        rules.append((sub, ids))
+        infos.append(info)
+    # which dict object holds which registry
+    dicts = [(KIND_COMMAND, hci.HCI_Command.command_classes), (KIND_EVENT, hci.HCI_Event.event_classes),
+             (KIND_LE_EVENT, hci.HCI_LE_Meta_Event.subevent_classes), (KIND_VENDOR, base)]
+    seen = []
+    objects = []
+    for kind, d in dicts:
+        for i, o in enumerate(seen):
+            if o is d:
+                objects.append((kind, i))
+                break
+        else:
+            seen.append(d)
+            objects.append((kind, len(seen) - 1))
+    if base is not hci.HCI_LE_Meta_Event.subevent_classes:
+        dispatched = {i.pycls for i in infos if i.kind == KIND_VENDOR}
+        for code in sorted(base):
+            if base[code] not in dispatched:
+                msg = (f'{base[code].__name__}: registered in HCI_Extended_Event.subevent_classes but no '
+                       'recognised vendor factory dispatches to it')
+                if strict:
+                    raise TranslationError(msg)
+                FAILED.append((KIND_VENDOR, code, None, msg))
     infos.extend(rps.values())
-    if hci.HCI_LE_META_EVENT in hci.HCI_Event.event_classes:
-        raise TranslationError('an event class is registered for HCI_LE_META_EVENT itself')
+    EXTRA.clear()
+    EXTRA.update(rules=rules, objects=objects, modules=list(MODULES))
     return hci, infos
+
+
+EXTRA: dict = {}
 
 
 # ----------------------------------------------------------------------------- Coq text
@@ -429,14 +565,17 @@ def render(infos):
         'Local Open Scope Z_scope.',
         'Local Open Scope string_scope.',
         '',
-        '(* kind: 0 command, 1 event, 2 LE sub-event, 3 return parameters (code = index) *)',
+        '(* modules imported (every module under bumble/ that registers HCI classes): '
+        + ', '.join(EXTRA.get('modules', [])) + ' *)',
+        '(* mkcls kind code event_code name fields; kind: 0 command, 1 event, 2 LE sub-event, 3 return',
+        '   parameters (code = index), 4 vendor sub-event reached through a vendor factory *)',
         'Definition classes : list cls := [',
     ]
     rows = []
     for i in infos:
         if i.custom:
             continue
-        rows.append(f'  mkcls {i.kind} {i.code} "{i.name}" {coq_fields(i.fields)}')
+        rows.append(f'  mkcls {i.kind} {i.code} {i.event} "{i.name}" {coq_fields(i.fields)}')
     lines.append(';\n'.join(rows))
     lines.append('].')
     lines.append('')
@@ -449,12 +588,26 @@ def render(infos):
     rp = {i.name: i for i in infos if i.kind == KIND_RETURN}
     rows = []
     for i in infos:
-        if i.kind == KIND_COMMAND and i.ret_name is not None:
+        if i.kind == KIND_COMMAND and i.ret_name is not None and not i.custom_return:
             rows.append(f'  ({i.code}, ("{i.ret_name}", {"true" if rp[i.ret_name].status_first else "false"}))')
     lines.append(';\n'.join(rows))
     lines.append('].')
     lines.append('')
-    lines.append('Definition registry : registry := mkreg classes custom_classes return_classes.')
+    lines.append('(* commands whose parse_return_parameters is hand-written *)')
+    lines.append('Definition custom_return_opcodes : list Z := ['
+                 + '; '.join(str(i.code) for i in infos if i.kind == KIND_COMMAND and i.custom_return) + '].')
+    lines.append('')
+    lines.append('(* HCI_Event.vendor_factories in call order: (sub-event code, report ids) *)')
+    lines.append('Definition vendor_rules : list (Z * list Z) := ['
+                 + '; '.join(f'({sub}, [' + '; '.join(str(x) for x in ids) + '])' for sub, ids in EXTRA.get('rules', [])) + '].')
+    lines.append('')
+    lines.append('(* (kind, index of the distinct dict object holding that registry): command_classes,')
+    lines.append('   event_classes, HCI_LE_Meta_Event.subevent_classes, HCI_Extended_Event.subevent_classes *)')
+    lines.append('Definition registry_objects : list (Z * Z) := ['
+                 + '; '.join(f'({k}, {i})' for k, i in EXTRA.get('objects', [])) + '].')
+    lines.append('')
+    lines.append('Definition registry : registry :=')
+    lines.append('  mkreg classes custom_classes return_classes custom_return_opcodes vendor_rules registry_objects.')
     lines.append('')
     return '\n'.join(lines)
 
